@@ -19,11 +19,9 @@ def regenerate(chk):
     if ops != tr_opcodes.committed():
         problems.append('opcode enumeration of mir.h differs from coq/Mir/Opcode.v')
     tr_c02_interp.main()
-    try:
-        import tr_c02_gvn
-        tr_c02_gvn.main()
-    except ImportError:
-        pass
+    import tr_c02_gvn, tr_c02_peephole
+    tr_c02_gvn.main()
+    tr_c02_peephole.main()
     return ops, problems
 
 
